@@ -230,13 +230,17 @@ class DilCase:
                 o, a, _ = self.sub(it[1])
                 e = o if it[2] == "o" else a
                 e.closed_locally = self.step
-                e.transport.loseConnection()
+                if isinstance(e, HalfEnd):
+                    e.transport.loseWriteConnection()
+                else:
+                    e.transport.loseConnection()
             elif k == "write_after_close":
                 o, a, _ = self.sub(it[1])
                 e = o if it[2] == "o" else a
                 try:
                     e.transport.write(b"late")
                     e.late_write_accepted = True
+                    e.writes.append(b"late")
                 except Exception as ex:
                     e.late_write_error = ex
             elif k == "wclose":
